@@ -225,7 +225,9 @@ class SdrCommon(object):
 
     def _common_record_key(self, buffer):
         self.owner_id = buffer.pop_unsigned_int(1)
-        self.owner_lun = buffer.pop_unsigned_int(1) & 0x3
+        channel_lun = buffer.pop_unsigned_int(1)
+        self.channel_number = channel_lun >> 4
+        self.owner_lun = channel_lun & 0x3
         self.number = buffer.pop_unsigned_int(1)
 
     def _entity(self, buffer):
